@@ -428,3 +428,9 @@ mod tests {
         assert!(matches!(result, Err(ProtocolError::Overflow)));
     }
 }
+
+#[cfg(kani)]
+#[allow(semicolon_in_expressions_from_non_local_macros, unused)]
+mod verif_kani {
+    include!(concat!(env!("VERIF_HARNESS"), "/actix_http/ws_frame.rs"));
+}
